@@ -65,6 +65,10 @@ type c17World struct {
 	log    []string
 	// never-added headers created for requests
 	ghosts int
+	// last SetFinalisedHash request and its outcome (read by the notification monitor, zz_verif_c17_notify_test.go)
+	lastErr              error
+	lastHash             common.Hash
+	lastRound, lastSetID uint64
 }
 
 func newC17World(salt uint64) (*c17World, error) {
@@ -292,6 +296,7 @@ func (w *c17World) finalise(c *vcommon.Case, target int, note string) bool {
 	}
 	oldHead := w.head
 	err := w.bs.SetFinalisedHash(hash, round, setID)
+	w.lastErr, w.lastHash, w.lastRound, w.lastSetID = err, hash, round, setID
 	w.logf("finalise %s b%d (%s) round=%d set=%d -> err=%v %s", kind, target, hash.Short(), round, setID, err, note)
 	c.Eval(1)
 	c.Count("fin_"+kind, 1)
@@ -468,13 +473,28 @@ func (w *c17World) indexesWith(st int) []int {
 	return out
 }
 
-func runC17Script(c *vcommon.Case, script []c17Op) {
+// c17Hooks lets a second monitor ride on the same histories: setup runs on the fresh world, after runs after every
+// operation that passed the C17 checks (fin = it was a SetFinalisedHash request); after returning false stops the case.
+type c17Hooks struct {
+	prefix string
+	setup  func(w *c17World)
+	after  func(w *c17World, fin bool) bool
+}
+
+func runC17Script(c *vcommon.Case, script []c17Op) { runC17ScriptHooked(c, script, nil) }
+
+func runC17ScriptHooked(c *vcommon.Case, script []c17Op, hk *c17Hooks) {
 	w, err := newC17World(uint64(c.Idx) + 1)
 	if err != nil {
 		c.Inconclusive("cannot build world: " + err.Error())
 		return
 	}
 	defer w.db.Close()
+	prefix := "script:"
+	if hk != nil {
+		prefix = hk.prefix + prefix
+		hk.setup(w)
+	}
 	for _, op := range script {
 		if op.Add {
 			if !w.add(c, op.Parent) {
@@ -483,11 +503,16 @@ func runC17Script(c *vcommon.Case, script []c17Op) {
 		} else if !w.finalise(c, op.Target, op.Note) {
 			return
 		}
+		if hk != nil && !hk.after(w, !op.Add) {
+			return
+		}
 	}
-	c.Distinct("script:" + w.tree.shape())
+	c.Distinct(prefix + w.tree.shape())
 }
 
-func runC17Random(c *vcommon.Case) {
+func runC17Random(c *vcommon.Case) { runC17RandomHooked(c, nil) }
+
+func runC17RandomHooked(c *vcommon.Case, hk *c17Hooks) {
 	r := c.R
 	w, err := newC17World(r.Uint64()>>16 + 1)
 	if err != nil {
@@ -495,6 +520,11 @@ func runC17Random(c *vcommon.Case) {
 		return
 	}
 	defer w.db.Close()
+	prefix := ""
+	if hk != nil {
+		prefix = hk.prefix
+		hk.setup(w)
+	}
 	maxBlocks := r.Range(6, 25)
 	nFin := r.Range(3, 9)
 	burst := 0 // remaining adds before the next finalisation request
@@ -519,6 +549,9 @@ func runC17Random(c *vcommon.Case) {
 				p = vcommon.Pick(r, live)
 			}
 			if !w.add(c, p) {
+				return
+			}
+			if hk != nil && !hk.after(w, false) {
 				return
 			}
 			continue
@@ -584,9 +617,12 @@ func runC17Random(c *vcommon.Case) {
 		if !w.finalise(c, target, "") {
 			return
 		}
+		if hk != nil && !hk.after(w, true) {
+			return
+		}
 	}
 	if len(w.indexesWith(stAbandoned)) > 0 {
-		c.Distinct(w.tree.shape() + "|" + kinds)
+		c.Distinct(prefix + w.tree.shape() + "|" + kinds)
 	}
 	c.Sample(map[string]any{"blocks": len(w.tree.blocks), "head": w.head, "abandoned": len(w.indexesWith(stAbandoned)),
 		"last_ops": w.log[max(0, len(w.log)-6):]})
@@ -634,4 +670,5 @@ func TestVerifC17(t *testing.T) {
 	corpus := c17FixedCorpus()
 	r.Fixed("corpus", len(corpus), func(c *vcommon.Case) { runC17Script(c, corpus[c.Idx]) })
 	r.Cases("tree", r.Scale(400), func(c *vcommon.Case) { runC17Random(c) })
+	c17NotifyGroups(r, corpus)
 }
